@@ -318,6 +318,9 @@ class Canon(object):
         for _ in range(3):
             if not self._inline_context_helpers(fn, cls, m):
                 break
+        for _ in range(4):
+            if not self._fuse_generator_loops(fn, cls, m):
+                break
         for _ in range(5):
             if not self._inline_round(fn, cls, m):
                 break
@@ -404,6 +407,134 @@ class Canon(object):
                                 repl.append(ast.Expr(value=y, lineno=st.lineno))
                             blk[k:k + 1] = repl + st.body
                             new = pre + body
+                            for x in new:
+                                _relocate(x, st)
+                            stmts[i:i + 1] = new
+                            self.stats['helpers'] += 1
+                            self.inlined.append((callee.name, fn.name))
+                            changed = True
+                            continue
+                for name in ('body', 'orelse', 'finalbody'):
+                    sub_ = getattr(st, name, None)
+                    if isinstance(sub_, list) and sub_ and isinstance(sub_[0], ast.stmt) and not isinstance(st, (ast.FunctionDef, ast.AsyncFunctionDef, ast.ClassDef)):
+                        rec(sub_)
+                for h in getattr(st, 'handlers', []) or []:
+                    rec(h.body)
+                i += 1
+        rec(fn.body)
+        if changed:
+            ast.fix_missing_locations(fn)
+        return changed
+
+    # ---------------------------------------------------------------- for x in obj.new_generator(..): BODY
+    def _fuse_generator_loops(self, fn, cls, m):
+        """`for x in R.G(args): BODY` where G is a NEW generator method (name not in the reference vocabulary) made of plain
+        statements, loops, ifs and statement-level yields becomes G's body with every `yield e` replaced by `x = e; BODY` and every
+        `yield from it` by `for x in it: BODY` - the loop the generator drives, written out.  BODY must not break / continue the
+        fused loop; the generator must not return early.  G is the receiver's own method (no related class redefines it) or, for
+        another simple receiver, the only definition in the program that accepts the call's arguments."""
+        first = self._first(fn, cls) if cls is not None else None
+        changed = False
+
+        def plain(stmts):
+            for st in stmts:
+                if isinstance(st, ast.Expr):
+                    if isinstance(st.value, (ast.Yield, ast.YieldFrom)):
+                        if any(isinstance(n, (ast.Yield, ast.YieldFrom)) for n in ast.walk(st.value.value) if st.value.value is not None):
+                            return False
+                        continue
+                    if any(isinstance(n, (ast.Yield, ast.YieldFrom)) for n in ast.walk(st)):
+                        return False
+                elif isinstance(st, ast.For) and not st.orelse:
+                    if any(isinstance(n, (ast.Yield, ast.YieldFrom)) for n in ast.walk(st.iter)) or not plain(st.body):
+                        return False
+                elif isinstance(st, ast.If):
+                    if any(isinstance(n, (ast.Yield, ast.YieldFrom)) for n in ast.walk(st.test)) or not plain(st.body) or not plain(st.orelse):
+                        return False
+                elif isinstance(st, (ast.Assign, ast.AugAssign, ast.Pass)):
+                    if any(isinstance(n, (ast.Yield, ast.YieldFrom)) for n in ast.walk(st)):
+                        return False
+                else:
+                    return False
+            return True
+
+        def accepts(fdef, call, method):
+            a = fdef.args
+            if a.vararg or a.kwarg or a.posonlyargs:
+                return False
+            params = [x.arg for x in a.args][1 if method else 0:]
+            if len(call.args) > len(params):
+                return False
+            names = set(params[len(call.args):]) | {x.arg for x in a.kwonlyargs}
+            return all(k.arg in names for k in call.keywords)
+
+        def resolve(call):
+            f = call.func
+            if not isinstance(f, ast.Attribute) or f.attr in VOCAB_FUNCS or (f.attr.startswith('__') and f.attr.endswith('__')):
+                return None
+            if any(isinstance(x, ast.Starred) for x in call.args) or any(k.arg is None for k in call.keywords) or not is_simple(f.value):
+                return None
+            defs = [(c, c.methods[f.attr]) for c in self.prog.all_classes() if f.attr in c.methods]
+            if any(f.attr in mm.functions for mm in self.prog.modules.values()):
+                return None
+            if isinstance(f.value, ast.Name) and first is not None and f.value.id == first:
+                own = cls.find_method(f.attr)
+                if own is None:
+                    return None
+                related = [c for c, d in defs if c is not own.cls and (cls in c.mro() or c in cls.mro())]
+                cands = [] if related else [own]
+            else:
+                cands = [d for c, d in defs if accepts(d.node, call, True)]
+            cands = [d for d in cands if not d.node.decorator_list and is_generator(d.node) and accepts(d.node, call, True)]
+            return cands[0].node if len(cands) == 1 else None
+
+        def leaves_loop(stmts):
+            for st in stmts:
+                if isinstance(st, (ast.Break, ast.Continue)):
+                    return True
+                if isinstance(st, (ast.For, ast.While, ast.FunctionDef, ast.AsyncFunctionDef, ast.ClassDef)):
+                    continue
+                for name in ('body', 'orelse', 'finalbody'):
+                    if leaves_loop(getattr(st, name, None) or []):
+                        return True
+                for h in getattr(st, 'handlers', []) or []:
+                    if leaves_loop(h.body):
+                        return True
+            return False
+
+        def weave(stmts, target, body):
+            out = []
+            for st in stmts:
+                if isinstance(st, ast.Expr) and isinstance(st.value, ast.Yield):
+                    v = st.value.value if st.value.value is not None else ast.Constant(value=None)
+                    out.append(ast.Assign(targets=[copy.deepcopy(target)], value=v, lineno=st.lineno))
+                    out.extend(copy.deepcopy(body))
+                elif isinstance(st, ast.Expr) and isinstance(st.value, ast.YieldFrom):
+                    out.append(ast.For(target=copy.deepcopy(target), iter=st.value.value, body=copy.deepcopy(body), orelse=[], lineno=st.lineno))
+                elif isinstance(st, ast.For):
+                    st.body = weave(st.body, target, body)
+                    out.append(st)
+                elif isinstance(st, ast.If):
+                    st.body = weave(st.body, target, body)
+                    st.orelse = weave(st.orelse, target, body) if st.orelse else []
+                    out.append(st)
+                else:
+                    out.append(st)
+            return out or [ast.Pass()]
+
+        def rec(stmts):
+            nonlocal changed
+            i = 0
+            while i < len(stmts):
+                st = stmts[i]
+                if isinstance(st, ast.For) and not st.orelse and isinstance(st.iter, ast.Call) and not leaves_loop(st.body):
+                    callee = resolve(st.iter)
+                    if callee is not None and callee is not fn and not returns_in(callee) and plain(body_nodoc(callee)):
+                        b = self._bind(callee, st.iter.func.value, 'method', st.iter, bound_names(fn), True)
+                        if b is not None:
+                            pre, sub = b
+                            body = [sub.visit(copy.deepcopy(x)) for x in body_nodoc(callee)]
+                            new = pre + weave(body, st.target, st.body)
                             for x in new:
                                 _relocate(x, st)
                             stmts[i:i + 1] = new
